@@ -213,7 +213,7 @@ fn run_history(ctx: &mut Ctx, pool: &[Entry], hist: &[usize], target: usize) {
 
 pub fn run(p: &Params) -> Outcome {
     let seed = p.seed;
-    let n = p.size(20_000, 10_000_000);
+    let n = p.size(1_000_000, 50_000_000);
     let per = n / p.workers as u64;
     let mut total = par::run(p.workers, move |w, _nw, ctx| {
         let mut rng = Rng::derive(seed, "C12", w as u64);
